@@ -935,7 +935,10 @@ fn apply_xml_edit(file: &mut Vec<u8>, op: u8, which: u32, arg: u32) -> bool {
     true
 }
 
-const HOSTILE_U32: &[u32] = &[0, 1, 0x7fff_ffff, 0x8000_0000, 0xffff_ffff, 0x00ff_ffff, 0x0100_0000, 65536];
+const HOSTILE_U32: &[u32] = &[
+    0, 1, 0x7fff_ffff, 0x8000_0000, 0xffff_ffff, 0x00ff_ffff, 0x0100_0000, 65536, 0xffff_fffe, 0x8000_0001, 0x7fff_fffe, 16, 255, 256,
+    65535, 0x4000_0000, 0x1000_0000, 4, 8, 0xffff_0000,
+];
 
 // ---------------------------------------------------------------------------
 
@@ -999,6 +1002,20 @@ impl IoSim {
                     props.push((format!("Sweep{}", ty), spec::gen_valspec_of_type(r, ty, 4, &dummy)));
                 }
                 tree.children.push(NodeSpec { class: class.clone(), name: format!("sweep{}", i), props, children: vec![] });
+            }
+        }
+        if tree.children.len() >= 2 && r.chance(1, 5) {
+            tree.name = "multiroot".into();
+        }
+        // Occasionally many instances of one class (long interleaved arrays,
+        // referent deltas, counts beyond one byte).
+        if !small && r.chance(1, 25) {
+            let n = r.range(200, 1500);
+            let class = if r.chance(1, 2) { "Folder" } else { "VerifMany" };
+            let with_prop = r.chance(1, 2);
+            for i in 0..n {
+                let props = if with_prop && i % 3 != 0 { vec![("Value".to_string(), ValSpec::I32(i as i32 * 7919))] } else { vec![] };
+                tree.children.push(NodeSpec { class: class.to_string(), name: format!("m{}", i), props, children: vec![] });
             }
         }
         // Occasionally one large blob, so that files cross the 8 KiB buffer sizes
@@ -1106,7 +1123,14 @@ impl IoSim {
             Workload::Dom { tree } => {
                 let (dom, _refs) = spec::materialise(tree);
                 let root = dom.root_ref();
-                Some(Source::Dom(dom, vec![root]))
+                // A tree whose root is named "multiroot" is saved as a selection of
+                // its children (several roots in one file) instead of one root.
+                let kids: Vec<Ref> = dom.root().children().to_vec();
+                if tree.name == "multiroot" && kids.len() >= 2 {
+                    Some(Source::Dom(dom, kids))
+                } else {
+                    Some(Source::Dom(dom, vec![root]))
+                }
             }
             Workload::Attr { attrs } => {
                 let mut a = Attributes::new();
@@ -1265,12 +1289,17 @@ impl IoSim {
                     return;
                 }
                 let old = u32::from_le_bytes(file[off..off + 4].try_into().unwrap());
+                let remaining = (file.len() - off - 4) as u32;
                 let new = match how % 12 {
                     0 => 0,
                     1 => old.wrapping_add(1),
                     2 => old.wrapping_sub(1),
                     3 => old.wrapping_mul(2),
-                    h => HOSTILE_U32[(h as usize - 4) % HOSTILE_U32.len()],
+                    // exactly what is left in the file, and one more / one less
+                    4 => remaining,
+                    5 => remaining.wrapping_add(1),
+                    6 => remaining.wrapping_sub(1),
+                    h => HOSTILE_U32[(h as usize + (*which as usize / 13)) % HOSTILE_U32.len()],
                 };
                 file[off..off + 4].copy_from_slice(&new.to_le_bytes());
                 ctx.count("fault_fired:len-edit");
